@@ -137,6 +137,9 @@ func (f *Frame) lookupAtEnd(name string, b *ssa.BasicBlock, st *State) (Val, boo
 
 func (f *Frame) specEnv(at *ssa.BasicBlock, st *State, results []Val) *SpecEnv {
 	e := &SpecEnv{c: f.c, f: f, st: st, old: f.entry, names: map[string]Val{}, block: at, results: results}
+	if f.con != nil {
+		e.lets = f.con.Lets
+	}
 	if f.fn != nil {
 		if f.fn.Pkg != nil {
 			e.pkg = f.fn.Pkg.Pkg
@@ -182,7 +185,7 @@ func (f *Frame) applyContract(cur *blockCur, in ssa.Instruction, con *Contract, 
 			f.checkTypeInv(cur, a, in, "argument of "+con.Func)
 		}
 	}
-	env := &SpecEnv{c: c, f: nil, st: cur.st, old: cur.st, names: map[string]Val{}}
+	env := &SpecEnv{c: c, f: nil, st: cur.st, old: cur.st, names: map[string]Val{}, lets: con.Lets}
 	var sig *types.Signature
 	if callee != nil {
 		sig = callee.Signature
